@@ -295,6 +295,11 @@ def strat_df(draw, tier):
     first = draw(_f(0.1, 2.0))
     gaps = [draw(_f(0.1, 2.0)) for _ in range(m)]
     tenors = [float(f"{v:.6g}") for v in np.concatenate(([first], first + np.cumsum(gaps)))]
+    # integer-typed tenor dates (years, as the library's own helper declares them: [5, 6, ..., 10]) in a quarter of the cases
+    if draw(st.integers(0, 3)) == 0:
+        t0 = draw(st.integers(1, 5))
+        steps = [draw(st.integers(1, 3)) for _ in range(m)]
+        tenors = [int(v) for v in np.concatenate(([t0], t0 + np.cumsum(steps)))]
     return {"model": draw(st.sampled_from(["forward", "libor"])), "tenors": tenors,
             "rates": [draw(st.one_of(st.just(0.0), _f(0.0, 0.15))) for _ in range(m)],
             "frac": [draw(st.floats(0.0, 1.0)) for _ in range(6)]}
@@ -354,8 +359,10 @@ def body_df(case):
 
 
 def classify_df(case):
+    _int = all(isinstance(t, int) for t in case["tenors"])
     m = len(case["rates"])
-    return [case["model"], f"periods={m}", "zero-rate" if any(r == 0 for r in case["rates"]) else "positive-rates"], m >= 2
+    return [case["model"], f"periods={m}", "zero-rate" if any(r == 0 for r in case["rates"]) else "positive-rates",
+            "integer-tenors" if _int else "float-tenors"], m >= 2
 
 
 SUBCHECKS = [
